@@ -70,6 +70,11 @@ let () =
     let t = rxnode r in
     pint (if t = render_ttml ex_rendering ex_model then 1 else 0);
     ptdoc (denote_ttml ex_rendering ex_model));
+  (* C07: styled sources converted into TTML (Model/ConvTtml.v); values inside the source reader's faithful domain *)
+  register "convstyledttml" (fun r ->
+    let src = rint r in let doc = rstr r in
+    let res = (match src with 0 -> convert_srt_ttml doc | 1 -> convert_vtt_ttml doc | 2 -> convert_ssa_ttml doc | _ -> convert_stl_ttml_go false doc) in
+    if (Hashtbl.find Drv_plain.plain_simple src) doc then pres pstr res else (Buffer.add_string b "NS "; pres (fun _ -> ()) res));
   register "ttmlconst" (fun r -> pint (rint r));
   register "ttmltime" (fun r ->
     let s = rstr r in let fr = rz r in let tr = rz r in
